@@ -369,10 +369,12 @@ impl WritableStorageTraits for FilesystemStore {
         let _lock = self.files.lock(); // lock all operations
 
         let prefix_path = self.prefix_to_fs_path(prefix);
-        let result = std::fs::remove_dir_all(prefix_path);
+        let result = std::fs::remove_dir_all(&prefix_path);
         if let Err(err) = result {
             match err.kind() {
                 std::io::ErrorKind::NotFound => Ok(()),
+                // The prefix is not a directory (e.g. it names a key), so no keys lie beneath it
+                _ if !prefix_path.is_dir() => Ok(()),
                 _ => Err(err.into()),
             }
         } else {
